@@ -637,7 +637,7 @@ PROPS = {
     ),
     "C12": dict(
         retry_on_failure=True,
-        suites=["c12"],
+        suites=["c12", "c12live"],
         judge=judge_c12,
         level="proof",
         rule="ClientHellos from rustls (varied SNI/ALPN) and synthetic ones (session ids, suite lists, padding and key-share "
@@ -646,12 +646,19 @@ PROPS = {
              "records; the real read loop + prebuffer replay over loopback TCP written in chosen segments with chosen read sizes"
              " The read loop is also fed hellos in 24-byte segments (more reads than the prebuffer has kilobytes) and hellos of "
              "15-16 KiB that fit the prebuffer; only a hello ending in the last KiB of a stream that fills the prebuffer is left out "
-             "(found or absent depending on how the reads fall, which the property allows)",
+             "(found or absent depending on how the reads fall, which the property allows)."
+             " Live part (suite c12live, wall clock): the real Core::listen (TCP + QUIC) on a loopback port; 44 (thorough 150) rustls "
+             "clients (ALPN http/1.1 and h2) whose ClientHello is delivered in TCP segments cut at chosen offsets (every offset below 64 "
+             "at once, the field boundaries 5/6/9/11/43/44, random ones) complete their handshake and a health check, and 8 (thorough 40) "
+             "quiche clients complete a QUIC handshake (after the endpoint's stateless retry): the client random the endpoint hands to "
+             "its connection rules (recorded by the door in Core::evaluate_connection_rules) must be bytes 11..43 of what the TCP "
+             "client sent, and SSL_get_client_random of the QUIC client's own handshake",
         explanation="theorems extract_exact, prefix_needs_more, found_is_the_field, loop_segmentation_invariant, "
                     "loop_absent_never_wrong, loop_conserves, replay_transparent/complete about TT/Model/ClientHello.lean",
         trusted=["tls-parser 0.12 record/handshake/ClientHello walk as transcribed; exactness claimed for records whose first handshake "
                  "message is a ClientHello and for non-handshake records (a record starting with another handshake message is outside the model)",
-                 "rustls handshake on the replayed bytes; QUIC: SSL_get_client_random of BoringSSL trusted"],
+                 "rustls handshake on the replayed bytes; QUIC: SSL_get_client_random of BoringSSL is trusted on both sides (the live "
+                 "suite compares the endpoint's value with the client's, it does not parse the encrypted Initial packets)"],
         assumptions=["near the 16 KiB prebuffer cap the loop's answer (absent vs found) depends on arrival timing; never a wrong value (loop_absent_never_wrong)"],
     ),
     "C15": dict(
